@@ -73,7 +73,8 @@ def run(pid, tier, own, what, guards_needed, extra_stage=None):
                              "Chain.tla is a design-level model; the execution schedule over paths is fixed in the driver (every path at every height), not generated from the spec"])
         print("%s %s: design %d states; %d heights x 8 paths, %d synced heights, %d rejections validated by TLC; classes %s%s"
               % (pid, tier, r.distinct, len(heights), coverage["sync_heights"], coverage["rejections"], {k: len(x) for k, x in classes.items()},
-                 ("; mempool: %d real operations recomputed by TLC, classes %s" % (extra["mempool_operations_validated"], extra["mempool_violation_classes"])) if extra else ""))
+                 ("; mempool: %d real operations recomputed by TLC, classes %s" % (extra["mempool_operations_validated"], extra["mempool_violation_classes"])) if "mempool_operations_validated" in extra
+                 else ("; slash blocks: %d real block states recomputed by TLC, classes %s" % (extra["slash_block_states_validated"], extra["slash_violation_classes"])) if "slash_block_states_validated" in extra else ""))
         return v.exit_code()
     finally:
         shutil.rmtree(work, ignore_errors=True)
